@@ -36,6 +36,11 @@ class SrcObj(Obj):
         cattrs = type(self)._class_attrs()
         if k in cattrs:
             return cattrs[k]
+        meths = type(self)._methods_of()
+        if k in meths and isinstance(meths[k], ast.FunctionDef) and self._world is not None:
+            # a bound method used as a value (`{ExprId: self.eval_ExprId, ..}[c](e)`)
+            w_, m_ = self._world, meths[k]
+            return Native(lambda *a, **kw: w_.ev.call_value(m_, [self] + list(a), kw or None))
         raise PyRaise('%s object has no attribute %s' % (type(self)._cname, k), 'AttributeError')
 
     def __repr__(self):
